@@ -68,7 +68,12 @@ the Go code and a concrete instance.
     object literals `new { k: e, … }` (the VM's template-then-assign construction against the specification's
     evaluate-then-allocate), field reads `o.f`, field writes `o.f = e` / `o.f op= e`; objects are shared by
     reference like lists.
-   (Proofs of 9–18: `Lemmas/SimH*.lean`; the simulation is combined in `SimHAll.allP`. From
+19. `method_spec`, `len_spec`, `push_spec`, `callVal_len_vm`, `callVal_push_vm`, `compileLen_frag`,
+    `compilePush_frag`, `len_correct`, `push_correct` — the builtin methods `let n = l.len();` and `l.push(x);`
+    (in the contexts with `G.fr = true`): `Member` yields the bound method because no object on the heap has a
+    data field of that name — the heap invariant `HeapInv`, which every `Runs` keeps and `SpecOK` asks of the
+    starting state when `G.fr = true` — and `Call_Val` on it is the specification's `callMember`.
+   (Proofs of 9–19: `Lemmas/SimH*.lean`; the simulation is combined in `SimHAll.allP`. From
    section 9 on, VM runs are `execHN` — instruction sequences including `Core.Run`'s exception
    dispatch — and the states `mkS s calls mp k stk mem w` carry a world `w` = heap and output.)
 -/
@@ -1018,7 +1023,7 @@ theorem call_returns (G : GCtx) (hG : G.OK) (fuel : Nat) (g : String) (fd : FnDe
   refine ⟨hfr, mem'.cells, ?_, hml.cells⟩
   have e : mem' = ⟨mem'.cells, itOf G.s⟩ := by rw [← hit]
   rw [e] at hrun
-  exact hrun
+  exact hrun.run
 
 /-- **Expressions with calls inside an activation** (`SimGE`). The activation `A` (`A.OK`): frame
 `⟨A.fn, ·⟩ :: A.rest`, memory pointer `A.mp` after the prologue, code `A.c`, slots `A.σ` below
@@ -1240,7 +1245,7 @@ private theorem callX (g : String) (fd : FnDef) (I : FnInfo) (stmts : List Stmt)
   | ok v =>
     cases v <;> simp [isIntV] at h1
     obtain ⟨_, mem', hrun, _⟩ := call_returns GX gx_ok fuel g fd I stmts e hK hfind hFn sp0 [.int (I64.ofInt arg)] stX
-      st' _ [] 0 [] [] ⟨trivial, rfl, rfl, by decide⟩ (by decide) hev
+      st' _ [] 0 [] [] ⟨fun _ => HeapInv.empty, rfl, rfl, by decide⟩ (by decide) hev
     simp only at h2
     refine ⟨_, mem', st'.heap, h1, ?_⟩
     have hw : st'.world = ⟨st'.heap, out⟩ := by rw [← h2]; rfl
@@ -1544,7 +1549,7 @@ example : ∃ K, ∀ quantum, K ≤ quantum → ∀ vfuel, ∃ s',
     s'.st.out = "55\nresult 225 true\n225 true done\n" ∧ s'.mp = 0 ∧ s'.calls = [] := by
   obtain ⟨fuel, hfuel⟩ : ∃ n : Nat, n = 200 := ⟨200, rfl⟩
   have h := entry_run GX gx_ok fuel "main" mainFd _ mainStmts fnOK_main sp0 stX 0 [] []
-    ⟨trivial, rfl, rfl, by decide⟩ (by decide) (by decide) (by decide)
+    ⟨fun _ => HeapInv.empty, rfl, rfl, by decide⟩ (by decide) (by decide) (by decide)
   subst hfuel
   have hs := spec_main
   rcases hev : callBody GX.cfg 200 sp0 GX.mod mainFd.params mainFd.body [] stX with ⟨res, st'⟩
@@ -1866,7 +1871,7 @@ example : ∃ K, ∀ quantum, K ≤ quantum → ∀ vfuel, ∃ s',
     s'.st.out = "ok 1\n1\ncaught\n-1\n" ∧ s'.mp = 0 ∧ s'.calls = [] := by
   obtain ⟨fuel, hfuel⟩ : ∃ n : Nat, n = 200 := ⟨200, rfl⟩
   have h := entry_run GY gy_ok fuel "main" main2Fd _ main2Stmts fnOK_main2 sp0 stX 0 [] []
-    ⟨trivial, rfl, rfl, by decide⟩ (by decide) (by decide) (by decide)
+    ⟨fun _ => HeapInv.empty, rfl, rfl, by decide⟩ (by decide) (by decide) (by decide)
   subst hfuel
   have hs := spec_main2
   rcases hev : callBody GY.cfg 200 sp0 GY.mod main2Fd.params main2Fd.body [] stX with ⟨res, st'⟩
@@ -2179,7 +2184,7 @@ example : ∃ K, ∀ quantum, K ≤ quantum → ∀ vfuel, ∃ s',
     s'.st.out = "12\n46\n0\n40\n33\n" ∧ s'.mp = 0 ∧ s'.calls = [] := by
   obtain ⟨fuel, hfuel⟩ : ∃ n : Nat, n = 200 := ⟨200, rfl⟩
   have h := entry_run GZ gz_ok fuel "main" main3Fd _ main3Stmts fnOK_main3 sp0 stX 0 [] []
-    ⟨trivial, rfl, rfl, by decide⟩ (by decide) (by decide) (by decide)
+    ⟨fun _ => HeapInv.empty, rfl, rfl, by decide⟩ (by decide) (by decide) (by decide)
   subst hfuel
   have hs := spec_main3
   rcases hev : callBody GZ.cfg 200 sp0 GZ.mod main3Fd.params main3Fd.body [] stX with ⟨res, st'⟩
@@ -2551,7 +2556,7 @@ example : ∃ K, ∀ quantum, K ≤ quantum → ∀ vfuel, ∃ s',
     s'.st.out = "18\n3\n3\n2\n1\n" ∧ s'.mp = 0 ∧ s'.calls = [] := by
   obtain ⟨fuel, hfuel⟩ : ∃ n : Nat, n = 200 := ⟨200, rfl⟩
   have h := entry_runF GW gw_ok fuel "main" main4Fd _ main4Stmts fnOK_main4 (fun _ => by decide) sp0 stX 0 []
-    ⟨[], ⟨[], 0⟩⟩ ⟨trivial, rfl, rfl, by decide⟩ (by decide) (by decide) (by decide)
+    ⟨[], ⟨[], 0⟩⟩ ⟨fun _ => HeapInv.empty, rfl, rfl, by decide⟩ (by decide) (by decide) (by decide)
   subst hfuel
   have hs := spec_main4
   rcases hev : callBody GW.cfg 200 sp0 GW.mod main4Fd.params main4Fd.body [] stX with ⟨res, st'⟩
@@ -2924,7 +2929,7 @@ example : ∃ K, ∀ quantum, K ≤ quantum → ∀ vfuel, ∃ s',
     s'.st.out = "38\n1\n" := by
   obtain ⟨fuel, hfuel⟩ : ∃ n : Nat, n = 200 := ⟨200, rfl⟩
   have h := entry_runF GL gl_ok fuel "main" main5Fd _ main5Stmts fnOK_main5 (fun _ => by decide) sp0 stX 0 []
-    ⟨[], ⟨[], 0⟩⟩ ⟨trivial, rfl, rfl, by decide⟩ (by decide) (by decide) (by decide)
+    ⟨[], ⟨[], 0⟩⟩ ⟨fun _ => HeapInv.empty, rfl, rfl, by decide⟩ (by decide) (by decide) (by decide)
   subst hfuel
   have hs := spec_main5
   rcases hev : callBody GL.cfg 200 sp0 GL.mod main5Fd.params main5Fd.body [] stX with ⟨res, st'⟩
@@ -3241,7 +3246,7 @@ example : ∃ K, ∀ quantum, K ≤ quantum → ∀ vfuel, ∃ s',
     s'.st.out = "17\n" ∧ s'.mp = 0 ∧ s'.calls = [] := by
   obtain ⟨fuel, hfuel⟩ : ∃ n : Nat, n = 200 := ⟨200, rfl⟩
   have h := entry_runF GO go_ok fuel "main" main6Fd _ main6Stmts fnOK_main6 (fun h => by cases h) sp0 stX 0 []
-    ⟨[], ⟨[], 0⟩⟩ ⟨trivial, rfl, rfl, by decide⟩ (by decide) (by decide) (by decide)
+    ⟨[], ⟨[], 0⟩⟩ ⟨fun _ => HeapInv.empty, rfl, rfl, by decide⟩ (by decide) (by decide) (by decide)
   subst hfuel
   have hs := spec_main6
   rcases hev : callBody GO.cfg 200 sp0 GO.mod main6Fd.params main6Fd.body [] stX with ⟨res, st'⟩
@@ -3255,5 +3260,260 @@ example : ∃ K, ∀ quantum, K ≤ quantum → ∀ vfuel, ∃ s',
     obtain ⟨s', hrun, hst, hmp, hcalls, hstk⟩ := hK quantum hq vfuel
     exact ⟨s', hrun, by rw [hst]; exact hs, hmp, hcalls⟩
 end Example18
+
+/-! ## 19. The builtin methods `len` and `push`: `let n = l.len();`, `l.push(x);`
+
+`o.len` on an object with a data field `len` is that field (`member_spec`), so `l.len()` calls the builtin
+only if no object on the heap has such a field. The simulation carries this as an invariant, `HeapInv`:
+every run of the VM keeps it (it is part of `Runs`), the fragment cannot break it (object literals of the
+fragment have no field named `len` or `push`), and in the contexts of the extended fragment
+(`G.fr = true`) `SpecOK` asks it of the state the run starts from — trivially true of the empty heap a
+program starts with. -/
+
+/-- **The heap invariant is what makes `l.len` / `l.push` the builtin method.** -/
+theorem method_spec (b : Val) (name : String) (sp : Span) (st : St) (hinv : HeapInv st.heap)
+    (hn : name = "len" ∨ name = "push") :
+    memberVal b name .dot sp st = (.ok (.bound b name), st) ∨
+      ∃ w, memberVal b name .dot sp st = (.error (.unsupported w), st) :=
+  memberVal_method b name sp st hinv hn
+
+/-- **The specification's `len`** on a list or a string. -/
+theorem len_spec (recv : Val) (sp : Span) (st : St) :
+    callMember recv "len" [] sp st =
+      match recv with
+      | .str s => (.ok (.int (I64.ofInt s.length)), st)
+      | .ref a =>
+        (match st.heap[a]? with
+          | some (.list xs) => (.ok (.int (I64.ofInt xs.length)), st)
+          | some _ => (.error (.unsupported "member len"), st)
+          | none => (.error (.unsupported "dangling reference"), st))
+      | _ => (.error (.unsupported "member len"), st) :=
+  callMember_len recv sp st
+
+/-- **The specification's `push`**: the element is appended to the list cell, in place. -/
+theorem push_spec (recv v : Val) (sp : Span) (st : St) :
+    callMember recv "push" [v] sp st =
+      match recv with
+      | .ref a =>
+        (match st.heap[a]? with
+          | some (.list xs) => (.ok .null, { st with heap := st.heap.setIfInBounds a (.list (xs ++ [v])) })
+          | some _ => (.error (.unsupported "member push"), st)
+          | none => (.error (.unsupported "dangling reference"), st))
+      | _ => (.error (.unsupported "member push"), st) :=
+  callMember_push recv v sp st
+
+/-- **`Call_Val` on the bound method `push`** of a list: the element is appended in the same cell of the
+same heap; nothing is pushed (the result is `null`). -/
+theorem callVal_push_vm (code : Code) (lim : Limits) (s : VMState) (fn : String) (ip : Nat)
+    (rest : List Frame) (mp : Int) (k : Nat) (stk : List SVal) (mem : List (Int × Val)) (out : World)
+    (c : List (RInstr × Span)) (hf : findCode code fn = some c) (sp : Span) (a : Nat) (xs : List Val) (v : Val)
+    (o1 o2 o3 : Option Org)
+    (hx : c[ip]? = some (.callVal, sp)) (hcell : out.heap[a]? = some (.list xs)) :
+    exec1 code lim (mkS s (⟨fn, ip⟩ :: rest) mp k
+        (⟨.int (I64.ofInt 1), o1⟩ :: ⟨.bound (.ref a) "push", o2⟩ :: ⟨v, o3⟩ :: stk) mem out) =
+      .next (mkS s (⟨fn, ip + 1⟩ :: rest) mp (k + 1) stk mem
+        ⟨out.heap.setIfInBounds a (.list (xs ++ [v])), out.out⟩) :=
+  mkS_callVal_push code lim s fn ip rest mp k stk mem out c hf sp a xs v o1 o2 o3 hx hcell
+
+/-- **`Call_Val` on the bound method `len`**: the specification's `callMember` on the VM's heap. -/
+theorem callVal_len_vm (code : Code) (lim : Limits) (s : VMState) (fn : String) (ip : Nat)
+    (rest : List Frame) (mp : Int) (k : Nat) (stk : List SVal) (mem : List (Int × Val)) (out : World)
+    (c : List (RInstr × Span)) (hf : findCode code fn = some c) (sp : Span) (recv : Val) (o1 o2 : Option Org) (n : Val)
+    (hx : c[ip]? = some (.callVal, sp))
+    (hr : callMember recv "len" [] sp { s.st with heap := out.heap, out := out.out } =
+      (.ok n, { s.st with heap := out.heap, out := out.out })) (hn : n ≠ .null) :
+    exec1 code lim (mkS s (⟨fn, ip⟩ :: rest) mp k (⟨.int (I64.ofInt 0), o1⟩ :: ⟨.bound recv "len", o2⟩ :: stk) mem out) =
+      .next (mkS s (⟨fn, ip + 1⟩ :: rest) mp (k + 1) (⟨n, none⟩ :: stk) mem out) :=
+  mkS_callVal_len code lim s fn ip rest mp k stk mem out c hf sp recv o1 o2 n hx hr hn
+
+/-- **What `compileStmt` emits for `let x = l.len();`**: `code(l); Member len; Copy_Push 0; Call_Val; SetVar x`. -/
+theorem compileLen_frag (fuel : Nat) (sp : Span) (name : String) (vty oty : Ty) (csp : Span) (cty : Ty) (msp : Span)
+    (mty : Ty) (b : Expr) (cs : CState) (il rt : Bool)
+    (hrt : rt = true → cs.tryDepth = 0) (hil : il = true → ∃ b c rest, cs.loops = (b, c, cs.tryDepth) :: rest)
+    (hs : Frag.okFS true il rt (.letS sp name vty false oty (.call csp cty (.member msp mty b "len" .dot) [] false)) = true)
+    (hd : Frag.cdS (.letS sp name vty false oty (.call csp cty (.member msp mty b "len" .dot) [] false)) ≤ fuel)
+    (hws : Frag.wsGS cs.currModule cs.currFn (φOf cs) (loopsOf cs.loops)
+      (.letS sp name vty false oty (.call csp cty (.member msp mty b "len" .dot) [] false)) (envOf cs) = true) :
+    let cb := cgE cs.currModule (ρS cs.scopes) (φOf cs) b cs.labelMangle
+    let fv := freshVar cs.currModule { envOf cs with lm := cb.2 } name
+    (compileStmt fuel (.letS sp name vty false oty (.call csp cty (.member msp mty b "len" .dot) [] false))).run cs =
+      ((), updS cs cs.loops
+        (cb.1 ++ [(.member "len", msp), (.copyPush (.int 0), csp), (.callVal, csp)] ++ [(.setVar fv.1, sp)])
+        { fv.2 with nv := fv.2.nv + 1 }) := by
+  have h := (compile_gstmt fuel).1 _ cs cs.loops il rt hrt hil hs hd [] (envOf cs) hws
+  rw [updS_self, List.nil_append, cgS] at h
+  exact h
+
+/-- **What `compileStmt` emits for `l.push(x);`**: `code(x); code(l); Member push; Copy_Push 1; Call_Val`
+(the argument first, the receiver after it; no `Drop`: the call's type is `null`). -/
+theorem compilePush_frag (fuel : Nat) (sp csp : Span) (cty : Ty) (msp : Span) (mty : Ty) (b : Expr) (a : String × Expr)
+    (cs : CState) (il rt : Bool)
+    (hrt : rt = true → cs.tryDepth = 0) (hil : il = true → ∃ b c rest, cs.loops = (b, c, cs.tryDepth) :: rest)
+    (hs : Frag.okFS true il rt (.exprS sp (.call csp cty (.member msp mty b "push" .dot) [a] false)) = true)
+    (hd : Frag.cdS (.exprS sp (.call csp cty (.member msp mty b "push" .dot) [a] false)) ≤ fuel)
+    (hws : Frag.wsGS cs.currModule cs.currFn (φOf cs) (loopsOf cs.loops)
+      (.exprS sp (.call csp cty (.member msp mty b "push" .dot) [a] false)) (envOf cs) = true) :
+    let ca := cgE cs.currModule (ρS cs.scopes) (φOf cs) a.2 cs.labelMangle
+    let cb := cgE cs.currModule (ρS cs.scopes) (φOf cs) b ca.2
+    (compileStmt fuel (.exprS sp (.call csp cty (.member msp mty b "push" .dot) [a] false))).run cs =
+      ((), updS cs cs.loops (ca.1 ++ cb.1 ++ [(.member "push", msp), (.copyPush (.int 1), csp), (.callVal, csp)])
+        { envOf cs with lm := cb.2 }) := by
+  have h := (compile_gstmt fuel).1 _ cs cs.loops il rt hrt hil hs hd [] (envOf cs) hws
+  rw [updS_self, List.nil_append, cgS] at h
+  exact h
+
+/-- **`let x = l.len();` is simulated** (`Sim.SimGS`, contexts with `G.fr = true`): the length of the list —
+or of the string — `l` evaluates to is bound to `x`. -/
+theorem len_correct (G : GCtx) (hG : G.OK') (fuel : Nat) (A : Act) (hA : A.OK G)
+    (loops : List (String × String)) (lscopes : CScopes) (d : Nat) (sp : Span) (name : String) (vty oty : Ty)
+    (csp : Span) (cty : Ty) (msp : Span) (mty : Ty) (b : Expr) (env : CEnv) (spec : St) (ip : Nat)
+    (stk : List SVal) (mem : Mem)
+    (stmt : Stmt) (hstmt : stmt = .letS sp name vty false oty (.call csp cty (.member msp mty b "len" .dot) [] false))
+    (hs : Frag.okFS G.fr (!loops.isEmpty) A.rt stmt = true) (hT : ∀ x ∈ Frag.identsGS stmt, x ∈ A.T)
+    (hws : Frag.wsGS G.mod A.src A.φ loops stmt env = true)
+    (hN : ∀ m ∈ codeVars (cgS G.mod A.src A.φ loops stmt env).1, A.N m)
+    (hpl : Placed A.lab A.σ A.c ip (cgS G.mod A.src A.φ loops stmt env).1)
+    (hd : 1 ≤ d) (hls : lscopes = env.scopes.drop d)
+    (hrel : Sim.GRel G A env.scopes env.vm spec.scopes mem) (hsp : SpecOK G A.mp spec) :
+    Sim.SimGS G A loops lscopes d ip (nI (cgS G.mod A.src A.φ loops stmt env).1) stk mem
+      (Sim.GRel G A (cgS G.mod A.src A.φ loops stmt env).2.scopes (cgS G.mod A.src A.φ loops stmt env).2.vm) spec
+      (evalStmt G.cfg fuel stmt spec) := by
+  subst hstmt
+  exact (allP G hG fuel).pgs A hA loops lscopes d _ env spec ip stk mem hs hT hws hN hpl hd hls hrel hsp
+
+/-- **`l.push(x);` is simulated**: the element is appended to the one cell both sides share, so every
+alias of the list sees it; `x` is an atom (the VM evaluates the argument before the receiver, the
+specification after it). -/
+theorem push_correct (G : GCtx) (hG : G.OK') (fuel : Nat) (A : Act) (hA : A.OK G)
+    (loops : List (String × String)) (lscopes : CScopes) (d : Nat) (sp csp : Span) (cty : Ty) (msp : Span) (mty : Ty)
+    (b : Expr) (a : String × Expr) (env : CEnv) (spec : St) (ip : Nat) (stk : List SVal) (mem : Mem)
+    (stmt : Stmt) (hstmt : stmt = .exprS sp (.call csp cty (.member msp mty b "push" .dot) [a] false))
+    (hs : Frag.okFS G.fr (!loops.isEmpty) A.rt stmt = true) (hT : ∀ x ∈ Frag.identsGS stmt, x ∈ A.T)
+    (hws : Frag.wsGS G.mod A.src A.φ loops stmt env = true)
+    (hN : ∀ m ∈ codeVars (cgS G.mod A.src A.φ loops stmt env).1, A.N m)
+    (hpl : Placed A.lab A.σ A.c ip (cgS G.mod A.src A.φ loops stmt env).1)
+    (hd : 1 ≤ d) (hls : lscopes = env.scopes.drop d)
+    (hrel : Sim.GRel G A env.scopes env.vm spec.scopes mem) (hsp : SpecOK G A.mp spec) :
+    Sim.SimGS G A loops lscopes d ip (nI (cgS G.mod A.src A.φ loops stmt env).1) stk mem
+      (Sim.GRel G A (cgS G.mod A.src A.φ loops stmt env).2.scopes (cgS G.mod A.src A.φ loops stmt env).2.vm) spec
+      (evalStmt G.cfg fuel stmt spec) := by
+  subst hstmt
+  exact (allP G hG fuel).pgs A hA loops lscopes d _ env spec ip stk mem hs hT hws hN hpl hd hls hrel hsp
+
+section Example19
+private def gmcall (ty : Ty) (l : String) (m : String) (args : List Expr) : Expr :=
+  .call sp0 ty (.member sp0 (.fn [] ty) (gl l) m .dot) (args.map fun a => ("", a)) false
+private def gpush (l : String) (x : Expr) : Stmt := .exprS sp0 (gmcall .null l "push" [x])
+
+/-- `let l = []; for i in 0..n { let sq = i * i; l.push(sq); } let m = l; m.push(100); let k = l.len();
+let last = l[-1]; let s = k + last;` -/
+def collectStmts : List Stmt :=
+  [ .letS sp0 "l" tyL false tyL (.list sp0 tyL []),
+    gfor "i" (.int sp0 0) (gv "n")
+      [ .letS sp0 "sq" .int false .int (.infix sp0 .int .mul (gv "i") (gv "i")), gpush "l" (gv "sq") ],
+    .letS sp0 "m" tyL false tyL (gl "l"),
+    gpush "m" (.int sp0 100),
+    .letS sp0 "k" .int false .int (gmcall .int "l" "len" []),
+    .letS sp0 "last" .int false .int (gidx "l" (.int sp0 (-1))),
+    .letS sp0 "s" .int false .int (.infix sp0 .int .add (gv "k") (gv "last")) ]
+/-- `fn collect(n: int) -> int { …; s }` -/
+def collectFd : FnDef := gfn "collect" ["n"] .int collectStmts (some (gv "s"))
+/-- `fn main() { println(collect(4)); }` -/
+def main7Stmts : List Stmt := [ gprint [gcall "collect" [.int sp0 4]] ]
+def main7Fd : FnDef := gfn "main" [] .null main7Stmts none
+def progP : Program :=
+  [{ name := "main", imports := [], singletons := [], globals := [], nImpls := 0, fns := [collectFd, main7Fd] }]
+
+/-- The whole program on the models themselves: the specification … -/
+example : (match runProgram { prog := progP } 200 with | .ok out _ => out | _ => "?") = "105\n" := by
+  decide +kernel
+/-- … and the VM, which ends with a clean core. -/
+example : (match compile progP "main" 100 with
+    | .ok c => (match runMain c {} 50 20000 with
+      | .ok s => (s.st.out, s.stack.length, s.mp, s.calls.length) | _ => ("?", 0, 0, 0))
+    | .error e => (e, 0, 0, 0)) = ("105\n", 0, 0, 0) := by
+  decide +kernel
+
+def φP : String → Option String := fun n => if n = "collect" then some "@main.collect" else none
+def symCollect : SCode := cgFn "main" φP collectFd collectStmts (some (gv "s")) [[]] [] []
+def symMain7 : SCode := cgFn "main" φP main7Fd main7Stmts none [[]] [] []
+def codeP : Code := [⟨"@main.collect", renameVars (relG symCollect)⟩, ⟨"@main.main", renameVars (relG symMain7)⟩]
+
+local instance (priority := high) : BEq PVal := ⟨pvalBeq⟩
+/-- The real compiler produces `codeP` (kernel evaluation, instruction by instruction). -/
+example : (match compile progP "main" 100 with
+    | .ok c => (c.fns.filter fun f => f.name != "@main.@init").map (fun f => (f.name, f.code))
+        == codeP.map (fun f => (f.name, f.code))
+    | .error _ => false) = true := by decide +kernel
+
+/-- The context of the extended fragment (`fr = true`: `for` loops, `len`, `push`). -/
+def GP : GCtx := ⟨{ prog := progP }, codeP, {}, "main", {}, fun g => g = "collect", 16, 0, true⟩
+
+private theorem phiP : PhiOK GP φP := by
+  intro name f h
+  unfold φP at h
+  split at h
+  · rename_i hn; subst hn; cases h
+    exact ⟨by decide +kernel, rfl, collectFd, rfl, rfl⟩
+  · cases h
+
+theorem fnOK_collect : FnOK GP "collect" collectFd
+    ⟨renameVars (relG symCollect), slotFn (relG symCollect), labelIndex symCollect, (· ∈ varNames (relG symCollect)),
+      ["n", "l", "i", "sq", "m", "k", "last", "s"], φP, [[]], [], []⟩ collectStmts (gv "s") :=
+  fn_compiled_okF GP collectFd collectStmts (gv "s") φP [[]] [] [] ["n", "l", "i", "sq", "m", "k", "last", "s"]
+    (relG symCollect) ⟨sp0, .int, rfl⟩
+    (by decide) (relocate_relG _ (by decide +kernel))
+    (by
+      have h : mangleFnName GP.mod collectFd.name = "@main.collect" := by decide +kernel
+      rw [h]; simp [findCode, codeP, GP])
+    (by decide +kernel) (by decide +kernel) (by decide +kernel) (by decide +kernel)
+    (by decide +kernel) (by decide +kernel) (by decide +kernel) (by decide +kernel) (by decide +kernel)
+    (by decide +kernel) phiP
+
+theorem gp_ok : GP.OK' := by
+  refine ⟨?_, by decide, by decide, rfl, rfl, rfl⟩
+  intro g fd hK hfind
+  cases hK
+  have h : findFn GP.cfg.prog GP.mod "collect" = some collectFd := rfl
+  rw [h] at hfind; cases hfind
+  exact ⟨_, _, _, fnOK_collect, fun _ => by decide⟩
+
+theorem fnOK_main7 : FnVoidOK GP "main" main7Fd
+    ⟨renameVars (relG symMain7), slotFn (relG symMain7), labelIndex symMain7, (· ∈ varNames (relG symMain7)),
+      ["println", "collect"], φP, [[]], [], []⟩ main7Stmts :=
+  fn_void_compiled_okF GP main7Fd main7Stmts φP [[]] [] [] ["println", "collect"] (relG symMain7)
+    ⟨sp0, .null, rfl⟩ (by decide) (relocate_relG _ (by decide +kernel))
+    (by
+      have h : mangleFnName GP.mod main7Fd.name = "@main.main" := by decide +kernel
+      rw [h]; simp [findCode, codeP, GP])
+    (by decide +kernel) (by decide +kernel) (by decide +kernel) (by decide +kernel)
+    (by decide +kernel) (by decide +kernel) (by decide +kernel) phiP
+
+private theorem spec_main7 :
+    okOut "105\n" (callBody GP.cfg 200 sp0 GP.mod main7Fd.params main7Fd.body [] stX) = true := by
+  decide +kernel
+
+/-- **The program through the theorems**: `collect(4)` grows a list from empty by `push` inside a `for`
+loop, pushes once more through an alias, asks for the length through the first name and reads the last
+element with a negative index: `105`. The heap invariant holds of the empty heap the run starts with. -/
+example : ∃ K, ∀ quantum, K ≤ quantum → ∀ vfuel, ∃ s',
+    run codeP {} quantum none (vfuel + 1) { calls := [⟨"@main.main", 0⟩] } = .ok s' ∧
+    s'.st.out = "105\n" ∧ s'.mp = 0 ∧ s'.calls = [] := by
+  obtain ⟨fuel, hfuel⟩ : ∃ n : Nat, n = 200 := ⟨200, rfl⟩
+  have h := entry_runF GP gp_ok fuel "main" main7Fd _ main7Stmts fnOK_main7 (fun _ => by decide) sp0 stX 0 []
+    ⟨[], ⟨[], 0⟩⟩ ⟨fun _ => HeapInv.empty, rfl, rfl, by decide⟩ (by decide) (by decide) (by decide)
+  subst hfuel
+  have hs := spec_main7
+  rcases hev : callBody GP.cfg 200 sp0 GP.mod main7Fd.params main7Fd.body [] stX with ⟨res, st'⟩
+  rw [hev] at h hs
+  cases res with
+  | error e => simp [okOut] at hs
+  | ok v =>
+    simp only [okOut, beq_iff_eq] at hs
+    obtain ⟨K, hK⟩ := h
+    refine ⟨K, fun quantum hq vfuel => ?_⟩
+    obtain ⟨s', hrun, hst, hmp, hcalls, hstk⟩ := hK quantum hq vfuel
+    exact ⟨s', hrun, by rw [hst]; exact hs, hmp, hcalls⟩
+end Example19
 
 end HmsProofs.C01VM
